@@ -9,7 +9,7 @@ Open Scope N_scope.
 Lemma hs_tail_eq v c kind x isCtl r' s2 :
   (if negb ((kind =? 0) && (0 <? x)) && negb (kind =? 1) then (s2, (true, 0))
    else if mem c (closed s2) || mem c (wfail s2) then (s2, (true, 0))
-   else if isCtl && c_auth r' && (0 <? c_cid r') then
+   else if (kind =? 0) && (0 <? x) && isCtl && c_auth r' && (0 <? c_cid r') then
      (update_auth v c (c_cid r') (match get (c_cid r') (idx s2) with
                                   | Some o => if o =? c then s2 else registry_remove o s2
                                   | None => s2
@@ -17,13 +17,13 @@ Lemma hs_tail_eq v c kind x isCtl r' s2 :
    else (s2, (false, 0)))
   = (if hs_rejected kind x then (s2, (true, 0))
      else if negb (write_ok c s2) then (s2, (true, 0))
-     else if hs_block isCtl r' then (hs_phaseB v c (c_cid r') s2, (false, 0))
+     else if hs_block kind x isCtl r' then (hs_phaseB v c (c_cid r') s2, (false, 0))
      else (s2, (false, 0))).
 Proof.
   unfold hs_rejected, write_ok, hs_block, hs_phaseB, hs_old. rewrite negb_involutive.
   destruct (negb ((kind =? 0) && (0 <? x)) && negb (kind =? 1)); [reflexivity|].
   destruct (mem c (closed s2) || mem c (wfail s2)); [reflexivity|].
-  destruct (isCtl && c_auth r' && (0 <? c_cid r')); [|reflexivity].
+  destruct ((kind =? 0) && (0 <? x) && isCtl && c_auth r' && (0 <? c_cid r')); [|reflexivity].
   destruct (get (c_cid r') (idx s2)) as [o|]; [destruct (o =? c)|]; reflexivity.
 Qed.
 
@@ -287,7 +287,7 @@ Theorem MG_mstep k l sh : MG sh -> MG (snd (mstep k l sh)).
 Proof.
   intros Hm. unfold MG in *. destruct l as [[ct|] prog]; unfold mstep; cbn [fst snd].
   - destruct ct as [c r' kind x isCtl|c X|c X o|c X|c|c|c].
-    + destruct (hs_rejected kind x || negb (write_ok c (g sh)) || negb (hs_block isCtl r')); exact Hm.
+    + destruct (hs_rejected kind x || negb (write_ok c (g sh)) || negb (hs_block kind x isCtl r')); exact Hm.
     + destruct (hs_old c X (g sh)); exact Hm.
     + cbn [snd g closing]. apply M_registry_remove. exact Hm.
     + cbn [snd g closing]. destruct (0 <? X) eqn:Ex; [|exact Hm]. apply N.ltb_lt in Ex. apply M_update_auth; assumption.
@@ -354,10 +354,14 @@ Definition b3_reregister (k : cfg) (c X : N) (r' : ctl) (s : st) : st :=
   end.
 
 Lemma reregister_variant_refuted :
-  exists (k : cfg) (c X : N) (s : st) (r' : ctl),
-    hs_phaseA Current k c 0 X (fst (step Current k init (Accept c))) = (s, Some r') /\ write_ok c s = true /\
-    let s' := b3_reregister k c X r' (close_conn c s) in
-    by_client s' X = Some c /\ mem c (closed s') = true /\ mem c (sess s') = false.
+  exists (k : cfg) (c X : N),
+    match hs_phaseA Current k c 0 X (fst (step Current k init (Accept c))) with
+    | (s, Some r') =>
+        write_ok c s = true /\
+        let s' := b3_reregister k c X r' (close_conn c s) in
+        by_client s' X = Some c /\ mem c (closed s') = true /\ mem c (sess s') = false
+    | (_, None) => False
+    end.
 Proof.
-  exists {| maxConn := 0; maxCtl := 0; hbTimeout := 2 |}, 1, 7. eexists. eexists. vm_compute. repeat split.
+  exists {| maxConn := 0; maxCtl := 0; hbTimeout := 2 |}, 1, 7. vm_compute. repeat split.
 Qed.
